@@ -137,3 +137,12 @@ aggregate("CheckGCDN1", "bval(artifacts[_i0].rsa_info.n) - 1",
            "assert [C01,C03] len(args[2]) == 1 and g_N % args[2][0] == 0 and args[2][0] == gcds[_i0]",
            "g_attached = True"],
           "gcds[_i0] >= self._gcd_bound", extra_fields={"_gcd_bound": "int"})
+
+# CheckKeypairDenylist: the regenerated key is attached only after p * q == n has been tested by the check itself
+single("CheckKeypairDenylist", self_fields={"_storage": "ref:Storage", "_table": "dict[int,bytes]"},
+       # the shipped table (any table a Storage supplies must have this shape): one seed byte followed by
+       # (position, value) pairs with positions inside the 32-byte seed
+       requires=["forall((k,), dict_has(self._table, k), blen(self._table[k]) % 2 == 1 and "
+                 "forall(t, 0, blen(self._table[k]), implies(t % 2 == 1, self._table[k][t] < 32)))"],
+       loops_extra={1: dict(invariant=list(_SEARCH_INV) + ["len(seed) == 32", "i % 2 == 1"], keep={'g_N'})},
+       extra={"on_assign": {"n": ["pow2_const(bit_length(n), 63)", "assert [C18] bit_length(n) >= 64"]}})
